@@ -27,7 +27,7 @@ from processscheduler.resource import Worker, CumulativeWorker
 from processscheduler.function import ConstantFunction
 from processscheduler.buffer import ConcurrentBuffer, NonConcurrentBuffer
 from processscheduler.util import get_minimum, get_maximum
-from processscheduler.util import sort_no_duplicates
+from processscheduler.util import sort_no_duplicates, sort_duplicates
 
 import processscheduler.base
 
@@ -291,9 +291,11 @@ class IndicatorResourceIdle(Indicator):
         for start_var, end_var in self.resource._busy_intervals.values():
             starts.append(start_var)
             ends.append(end_var)
-        # sort both lists
-        sorted_starts, c1 = sort_no_duplicates(starts)
-        sorted_ends, c2 = sort_no_duplicates(ends)
+        # sort both lists. An indicator must not restrict the schedules: use the sort
+        # that accepts equal values (e.g. a zero duration task that starts when another
+        # one ends)
+        sorted_starts, c1 = sort_duplicates(starts)
+        sorted_ends, c2 = sort_duplicates(ends)
         self.append_z3_list_of_assertions(c1 + c2)
         # from now, starts and ends are sorted in asc order
         # the space between two consecutive tasks is the sorted_start[i+1]-sorted_end[i]
